@@ -28,8 +28,9 @@ def verdict(k, cond):
 class Pack:
     """collects test blocks into programs of at most `cap` result cells"""
 
-    def __init__(self, name, cap=24, shorts=True, placement="", pointers=0):
+    def __init__(self, name, cap=24, shorts=True, placement="", pointers=0, signed=False):
         self.name = name; self.cap = cap; self.shorts = shorts; self.placement = placement; self.pointers = pointers
+        self.signed = signed
         self.programs = []; self.blocks = []; self.k = 0; self.funcs = []; self.weight = 0
 
     def cell(self):
@@ -57,6 +58,8 @@ class Pack:
         p.decls.append(("unsigned char", "a1", 4, q))
         for i in range(self.pointers):
             p.decls.append(("unsigned char *", "p%d" % i, None, q))
+        if self.signed:
+            p.decls += [("signed char", "g0", None, q), ("signed char", "g1", None, q), ("signed char", "h0", 4, q), ("short", "z0", None, q)]
         p.decls.append(("unsigned char", "r", max(self.cap, 2), "ramchip"))
         for f in self.funcs:
             p.funcs.append(f)
@@ -693,12 +696,52 @@ def scopes():
     return progs
 
 
+# ----------------------------------------------------------------------------------------------- F12
+
+def signed_values():
+    """signed char operands widened to 16 bits (sign extension), negated, shifted, compared for equality; from scalars
+    and from array elements subscripted by a literal, X, Y (the neighbouring elements have the other sign).
+    Ordered comparisons of signed operands are a recorded finding and are left out."""
+    progs = []
+    s0, s1, v1, X, Y = VAR('s0'), VAR('s1'), VAR('v1'), VAR('X'), VAR('Y')
+    g0, g1, z0 = VAR('g0'), VAR('g1'), VAR('z0')
+    H = lambda i: ('idx', 'h0', i)
+
+    def emit(name, stmts, res=s0):
+        pk = Pack("signed-" + name, cap=2, shorts=True, signed=True)
+        pk.cell(); pk.cell()
+        pk.add(stmts + [SET(R(0), res), SET(R(1), ('bin', '>>', res, NUM(8)))])
+        pk.flush()
+        progs.extend(pk.programs)
+
+    for val in (5, 253, 128, 127, 255, 0):
+        other = 5 if val >= 128 else 250
+        setup = [SET(g0, NUM(val)), SET(g1, NUM(other)), SET(s1, NUM(1000)), SET(X, NUM(2)), SET(Y, NUM(3)),
+                 SET(H(NUM(0)), NUM(other)), SET(H(NUM(1)), NUM(other)), SET(H(NUM(2)), NUM(val)), SET(H(NUM(3)), NUM(val))]
+        srcs = [("g", g0), ("hk", H(NUM(2))), ("hX", H(X)), ("hY", H(Y)), ("h3", H(NUM(3)))]
+        for nm, src in srcs:
+            emit("widen-" + nm, setup + [SET(s0, src)])
+            emit("widen-z-" + nm, setup + [SET(z0, src), SET(s0, z0)])
+            emit("add-" + nm, setup + [SET(s0, ('bin', '+', s1, src))])
+            emit("radd-" + nm, setup + [SET(s0, ('bin', '+', src, s1))])
+            emit("sub-" + nm, setup + [SET(s0, ('bin', '-', s1, src))])
+            emit("opasg-" + nm, setup + [SET(s0, NUM(1000)), ('expr', ('opasg', '+', s0, src))])
+            emit("neg-" + nm, setup + [SET(s0, ('neg', src))])
+            emit("sum8-" + nm, setup + [SET(s0, ('bin', '+', src, g1))])
+            cst = NUM(val) if val < 128 else ('neg', NUM(256 - val))
+            emit("eq-" + nm, setup + [SET(s0, NUM(0)), ('if', ('cmp', '==', src, cst), SET(s0, NUM(1)), SET(s0, NUM(2)))])
+            emit("ne-" + nm, setup + [SET(s0, NUM(0)), ('if', ('cmp', '!=', cst, src), SET(s0, NUM(1)), SET(s0, NUM(2)))])
+            emit("shr-" + nm, setup + [SET(g1, ('bin', '>>', src, NUM(1))), SET(s0, g1)])
+            emit("tern-" + nm, setup + [SET(s0, ('tern', v1, src, s1))])
+    return progs
+
+
 # ----------------------------------------------------------------------------------------------- all
 
 def all_programs(families=None):
     fams = {"update-then-test": update_then_test, "update-then-loop": update_then_loop, "comparisons": comparisons,
             "folded": folded_comparisons, "far": far_branches, "switch": switches, "triples": triples,
-            "precedence": precedence, "loop-headers": loop_headers, "wide": wide, "nested": nested, "calls": calls, "pointers": pointers, "scopes": scopes}
+            "precedence": precedence, "loop-headers": loop_headers, "wide": wide, "nested": nested, "calls": calls, "pointers": pointers, "scopes": scopes, "signed": signed_values}
     out = []
     for n, f in fams.items():
         if families is None or n in families:
